@@ -29,7 +29,7 @@ STUBS = ["builtin float() inside opendsm.common.metrics -> identity on symbolic 
          "t_stat (scipy t quantile) -> fresh positive symbol", "skew/kurtosis not evaluated"]
 MODELS_USED = ["symreal reductions (sum, mean, var ddof=0, median)", "symnp.quantile (sorting network + numpy linear interpolation)", "sqrt: s>=0, s*s==x"]
 ASSUMPTIONS = ["floats as reals; min_denominator 1e-3 enters as its exact rational value", "inf cells are not enumerated (NaN only): np.isfinite treats both alike"]
-EXPECTED_REGIMES = ["row dropped for NaN", "ratio undefined (denominator not safely positive)", "ddof clipped to 1", "autocorrelation undefined"]
+EXPECTED_REGIMES = ["row dropped for NaN", "ratio undefined (denominator not safely positive)", "ddof clipped to 1", "autocorrelation undefined", "reporting row with usage but no prediction"]
 MIN_DEN = 1e-3
 RATIOS = {  # field -> (numerator field, denominator kind)
     "nmae": ("mae", "mean"), "pnmae": ("mae", "iqr"), "nmbe": ("mbe", "mean"), "pnmbe": ("mbe", "iqr"),
@@ -258,11 +258,12 @@ def replay_reporting(inp):
     n, env = inp["n"], inp["env"]
     idx = pd.date_range("2021-01-30", periods=n, freq="D", tz="UTC")
     obs = [float(env.get(f"o{i}", 0.0)) if inp["os"][i] == "val" else np.nan for i in range(n)]
-    pred = [float(env.get(f"q{i}", 0.0)) for i in range(n)]
+    ps = inp.get("ps") or ["val"] * n
+    pred = [float(env.get(f"q{i}", 0.0)) if ps[i] == "val" else np.nan for i in range(n)]
     df = pd.DataFrame({"observed": obs, "predicted": pred}, index=idx)
     base = types.SimpleNamespace(n=float(env["bn"]), n_prime=float(env["bnp"]), ddof=5.0, cvrmse_autocorr_adj=float(env["bcv"]))
     rm = mt.ReportingMetrics.model_construct(baseline_metrics=base, reporting_df=df, data_frequency=inp["freq"], confidence_level=0.9, t_tail=2)
-    fin = [(o, q) for o, q in zip(obs, pred) if np.isfinite(o)]
+    fin = [(o, q) for o, q in zip(obs, pred) if np.isfinite(o) and np.isfinite(q)]
     sav = sum(q for _, q in fin) - sum(o for o, _ in fin)
     bad = abs(rm.savings - sav) > 1e-9 * max(1, abs(sav))
     return bad, f"savings {rm.savings} vs {sav}"
@@ -463,14 +464,14 @@ def run_reporting(case, n):
         def run():
             eng = E.cur()
             obs, os_ = F.sym_cells("o", n)
-            pred = [real(f"q{i}") for i in range(n)]
+            pred, ps_ = F.sym_cells("q", n)  # a day without temperature has usage but no prediction
             idx = pd.date_range("2021-01-30", periods=n, freq="D", tz="UTC")
             df = pd.DataFrame({"observed": SymArray(obs), "predicted": SymArray(pred)}, index=idx)
             for c in (z3.Real("bn") >= 1, z3.Real("bnp") > 0, z3.Real("t") > 0):
                 eng.assume(c)
             base = types.SimpleNamespace(n=real("bn"), n_prime=real("bnp"), ddof=5.0, cvrmse_autocorr_adj=real("bcv"))
             rm = mt.ReportingMetrics.model_construct(baseline_metrics=base, reporting_df=df, data_frequency=freq, confidence_level=0.9, t_tail=2)
-            return os_, dict(n=rm.n, savings=rm.savings, unc=rm.total_savings_uncertainty, fsu=rm.fsu, pt=rm.predicted_data_point_unc, idx=idx)
+            return (os_, ps_), dict(n=rm.n, savings=rm.savings, unc=rm.total_savings_uncertainty, fsu=rm.fsu, pt=rm.predicted_data_point_unc, idx=idx)
 
         with _ctx(), patched(mt, t_stat=lambda *a, **k: real("t")):
             paths = case.explore(run)
@@ -480,9 +481,10 @@ def run_reporting(case, n):
                     continue
                 case.rep["harness_errors"].append(f"reporting metrics raised {p.value!r}")
                 continue
-            os_, v = p.value
-            fin = [i for i in range(n) if os_[i] == "val"]
-            rp = ("reporting", (lambda a: lambda mdl: dict(n=n, freq=freq, os=a, env=model_env(mdl, case.inputs)))(os_))
+            (os_, ps_), v = p.value
+            fin = [i for i in range(n) if os_[i] == "val" and ps_[i] == "val"]
+            rp = ("reporting", (lambda a, b: lambda mdl: dict(n=n, freq=freq, os=a, ps=b, env=model_env(mdl, case.inputs)))(os_, ps_))
+            case.regime("reporting row with usage but no prediction", any(o == "val" and q == "nan" for o, q in zip(os_, ps_)))
             if not fin:
                 continue
             case.twin(p)
